@@ -22,8 +22,14 @@ Definition phys_new : physfs :=
   mkPhys {[ [] := mkPNode PDir TAuto TAuto ]} ∅ 0.
 
 Definition phys_inode (s : physfs) (ino : nat) : bytes := default [] (p_inodes s !! ino).
+(** a write through a descriptor replaces the bytes and stamps the modification time of
+    the (still linked) file *)
 Definition phys_set_inode (s : physfs) (ino : nat) (bs : bytes) : physfs :=
-  mkPhys (p_tree s) (<[ino := bs]> (p_inodes s)) (p_next s).
+  mkPhys ((fun n => match pn_kind n with
+                    | PFile j => if Nat.eqb j ino then mkPNode (pn_kind n) TAuto (pn_atime n) else n
+                    | PDir => n
+                    end) <$> p_tree s)
+         (<[ino := bs]> (p_inodes s)) (p_next s).
 
 (** path walk of the kernel *)
 Inductive lres := Found (n : pnode) | NoEnt | NotDir.
